@@ -265,7 +265,16 @@ func genHistory(r *core.Rand, c HistCfg) *Episode {
 		idx = j
 	}
 	w := []int{c.WSign, c.WJump, c.WRefused, c.WCrash}
+	withOthers := r.Chance(0.3) // the process also works with other keys meanwhile
 	for len(ep.Ops) < c.NOps {
+		if withOthers && r.Chance(0.12) {
+			k := "sibling"
+			if r.Chance(0.5) {
+				k = "other"
+			}
+			ep.Ops = append(ep.Ops, Op{K: k, MS: r.Uint64()})
+			continue
+		}
 		switch r.Pick(w) {
 		case 0:
 			ep.Ops = append(ep.Ops, signOp(r, c.Height <= 8))
